@@ -10,10 +10,12 @@ import (
 	"pgregory.net/rapid"
 
 	"verif/internal/cat"
+	"verif/internal/cli"
 	"verif/internal/gen"
 	"verif/internal/harness"
 	"verif/internal/hostile"
 	"verif/internal/spec"
+	"verif/internal/xport"
 )
 
 func TestMain(m *testing.M) { harness.Main(m) }
@@ -35,6 +37,9 @@ type encCase struct {
 	// serialised before must not matter.
 	Sibling    string `json:"sibling,omitempty"`
 	SiblingXor uint16 `json:"sibling_xor,omitempty"`
+	// Wire: the request is also handed to the clients (network client of the framing, now and then the serial client for RTU; with and without
+	// logging hooks, with the response parser named explicitly in the configuration or not): what they put on the wire is the ADU
+	Wire bool `json:"wire,omitempty"`
 }
 
 // expected returns the specification-level request the arguments denote.
@@ -213,6 +218,35 @@ func runEnc(c encCase) harness.Result {
 			}
 		}
 	}
+	if c.Wire && known == "" {
+		kinds := []string{cli.TCP}
+		if c.Framing == spec.RTU {
+			// (the serial client waits 30 ms in every call: it gets one request in sixteen of these)
+			kinds = []string{cli.RTUNet}
+			if (int(r.Addr)+int(r.Unit))%16 == 0 {
+				kinds = append(kinds, cli.Serial)
+			}
+		}
+		for _, kind := range kinds {
+			for v := 0; v < 4; v++ {
+				if cli.IsSerial(kind) && v != 1 {
+					continue
+				}
+				o := cli.Run(cli.Scenario{Kind: kind, Req: c.Req, Events: []xport.Event{{Kind: "ioerr"}}, ReadTimeoutMs: 300, Hooks: v%2 == 1, ExplicitParser: v >= 2})
+				if o.Panic != nil || o.Hung {
+					return harness.Fail("%s client (hooks=%v explicit parser=%v): panic=%v hung=%v", kind, v%2 == 1, v >= 2, o.Panic, o.Hung)
+				}
+				var sent []byte
+				for _, w := range o.Writes {
+					sent = append(sent, w...)
+				}
+				if !bytes.Equal(sent, want) {
+					return harness.Fail("%s client (hooks=%v, explicit parser=%v) wrote %x to the transport, the ADU of the request is %x", kind, v%2 == 1, v >= 2, sent, want)
+				}
+			}
+		}
+		labels = append(labels, "sent-through-clients")
+	}
 	if known != "" {
 		return harness.Result{Excluded: known, Labels: append(labels, "known:"+known)}
 	}
@@ -294,6 +328,7 @@ func genEnc(t *rapid.T) encCase {
 	if c.Framing == spec.TCP && rapid.IntRange(0, 3).Draw(t, "proto_field") == 0 {
 		c.Proto = uint16(rapid.SampledFrom([]int{1, 0x0100, 0x1234, 0xFFFF}).Draw(t, "proto"))
 	}
+	c.Wire = rapid.IntRange(0, 15).Draw(t, "wire") == 0
 	if rapid.IntRange(0, 2).Draw(t, "with_sibling") == 0 {
 		c.Sibling = rapid.SampledFrom([]string{"unit", "unit", "addr", "qty", "tx", "value"}).Draw(t, "sibling")
 		c.SiblingXor = uint16(1) << rapid.IntRange(0, 15).Draw(t, "sibling_bit")
